@@ -287,30 +287,112 @@ fn aco_extra(name: &str, params: &Value) -> Extra<TspProblem> {
     })
 }
 
-/// C17 (template level): the temperature in force after each component of the SA loop body, as the
-/// predicate "T = t_0 * alpha^k by k successive multiplications" for k = completed iterations
-/// (`t_iters`) and k = completed iterations + 1 (`t_next`).
+/// C17 (template level).  Recorded after every step of an SA run:
+///
+/// * the temperature in force (the innermost one, what `get_value::<Temperature>()` returns) as the
+///   predicates "T = t_0 * alpha^k by k successive multiplications" for k = completed iterations
+///   (`t_iters`) and k = completed iterations + 1 (`t_next`), t_0 / alpha / iterations being those of
+///   the SA that owns the innermost scope (`params.inner` describes an SA nested in a `Scope`);
+/// * the scope chain of temperatures, root first, one entry per scope: `own` (the scope holds a
+///   `Temperature` of its own), `tid` (P-tag: small integer naming the bit pattern of that
+///   temperature, 0 = none), `tit` / `tnx` (the predicates above for that scope's temperature, t_0,
+///   alpha and `Iterations`), and `cool1` (after a cooling step: the innermost temperature is exactly
+///   its previous value times that SA's alpha; 2 elsewhere);
+/// * the operands the acceptance component will find: `cur` / `cand` (P-rank of the objective values
+///   of the single individuals in the second population from the top / the top population, none if
+///   the stack does not have that shape), `curt` (P-tag of the current solution) and `pcl`, the class
+///   of p = exp(-(f(cand) - f(cur)) / T) at the temperature in force: "zero" (p < 1e-12), "one"
+///   (p > 1 - 1e-12), "mid", "-" (no operands).
 fn sa_extra<P: Instrumented>(params: &Value) -> Extra<P> {
-    let (t0, alpha) = (params["t_0"].as_f64().unwrap(), params["alpha"].as_f64().unwrap());
-    Box::new(move |_problem, state: &State<P>, _name| {
-        let t = state.try_get_value::<mahf::components::replacement::sa::Temperature>().ok();
-        let iters = state.try_get_value::<Iterations>().ok();
-        let (mut t_iters, mut t_next) = (-1i64, -1i64);
-        if let (Some(t), Some(it)) = (t, iters) {
+    use mahf::components::replacement::sa::Temperature;
+    let mut levels = vec![(params["t_0"].as_f64().unwrap(), params["alpha"].as_f64().unwrap())];
+    if let Some(inner) = params.get("inner") {
+        levels.push((inner["t_0"].as_f64().unwrap(), inner["alpha"].as_f64().unwrap()));
+    }
+    let ids: Mutex<std::collections::HashMap<u64, i64>> = Mutex::new(Default::default());
+    let before: Mutex<Vec<Option<f64>>> = Mutex::new(Vec::new());
+    Box::new(move |_problem, state: &State<P>, name| {
+        let on_schedule = |t0: f64, alpha: f64, it: u32, t: f64| {
             let mut e = t0;
             for _ in 0..it {
                 e *= alpha;
             }
-            t_iters = near(e, t, 1e-9) as i64;
-            t_next = near(e * alpha, t, 1e-9) as i64;
+            (near(e, t, 1e-9) as i64, near(e * alpha, t, 1e-9) as i64)
+        };
+        // scope chain, root first
+        let mut chain: Vec<&mahf::StateRegistry> = Vec::new();
+        let mut r: &mahf::StateRegistry = state;
+        loop {
+            chain.push(r);
+            match r.parent() {
+                Some(p) => r = p,
+                None => break,
+            }
         }
-        (Vec::new(), json!({"t_iters": t_iters, "t_next": t_next}))
+        chain.reverse();
+        let k = chain.len();
+        let level = |l: usize| levels[l.min(levels.len() - 1)];
+        let (mut own, mut tid, mut tit, mut tnx, mut temps) = (Vec::new(), Vec::new(), Vec::new(), Vec::new(), Vec::new());
+        let mut ids = ids.lock().unwrap();
+        for (l, reg) in chain.iter().enumerate() {
+            let t = if reg.contains_at_top::<Temperature>() { reg.try_get_value::<Temperature>().ok() } else { None };
+            let it = if reg.contains_at_top::<Iterations>() { reg.try_get_value::<Iterations>().ok() } else { None };
+            own.push(t.is_some() as i64);
+            let n = ids.len() as i64 + 1;
+            tid.push(t.map(|t| *ids.entry(t.to_bits()).or_insert(n)).unwrap_or(0));
+            let (a, b) = match (t, it) {
+                (Some(t), Some(it)) => on_schedule(level(l).0, level(l).1, it, t),
+                _ => (-1, -1),
+            };
+            tit.push(a);
+            tnx.push(b);
+            temps.push(t);
+        }
+        let mut before = before.lock().unwrap();
+        let mut cool1 = 2;
+        if name == "GeometricCooling" {
+            cool1 = match (before.get(k - 1).copied().flatten(), temps[k - 1]) {
+                (Some(old), Some(new)) if before.len() == k => near(old * level(k - 1).1, new, 1e-12) as i64,
+                _ => 0,
+            };
+        }
+        *before = temps;
+        // the temperature in force and the iteration counter in force
+        let t = state.try_get_value::<Temperature>().ok();
+        let iters = state.try_get_value::<Iterations>().ok();
+        let (t_iters, t_next) = match (t, iters) {
+            (Some(t), Some(it)) => on_schedule(level(k - 1).0, level(k - 1).1, it, t),
+            _ => (-1, -1),
+        };
+        // operands of the acceptance
+        let none = json!({"$obj": "none"});
+        let (mut cur, mut cand, mut curt, mut pcl) = (none.clone(), none, json!(0), "-");
+        if let Ok(pops) = state.try_borrow::<Populations<P>>() {
+            if pops.len() >= 2 && pops.peek(0).len() == 1 && pops.peek(1).len() == 1 {
+                let (c, d) = (&pops.peek(1)[0], &pops.peek(0)[0]);
+                cur = obj_of(c);
+                cand = obj_of(d);
+                curt = json!({"$tag": P::show(c.solution())});
+                if let (Some(fc), Some(fd), Some(t)) = (c.get_objective(), d.get_objective(), t) {
+                    let p = (-(fd.value() - fc.value()) / t).exp();
+                    pcl = if p < 1e-12 {
+                        "zero"
+                    } else if p > 1.0 - 1e-12 {
+                        "one"
+                    } else {
+                        "mid" // includes NaN (inf - inf): no constraint from the probability
+                    };
+                }
+            }
+        }
+        (Vec::new(), json!({"t_iters": t_iters, "t_next": t_next, "own": own, "tid": tid, "tit": tit, "tnx": tnx, "cool1": cool1,
+                            "cur": cur, "cand": cand, "curt": curt, "pcl": pcl}))
     })
 }
 
 pub fn real_extra(name: &str, params: &Value, n: u32) -> (String, Extra<RealProblem>) {
     match name {
-        "real_sa" => ("sa".to_string(), sa_extra::<RealProblem>(params)),
+        "real_sa" | "real_sa|nested" => ("sa".to_string(), sa_extra::<RealProblem>(params)),
         "real_pso" | "real_pso|evals" | "real_pso|log4" | "real_pso|scoped" | "real_pso|phase2" => ("pso".to_string(), pso_extra(params, n, false)),
         "real_pso@AG" => ("pso".to_string(), pso_extra(params, n, true)),
         "real_cro" => ("cro".to_string(), cro_extra(params)),
